@@ -171,6 +171,13 @@ fn build(c: Config) -> Built {
             publisher(h.clone(), log.clone(), "stats", vec![1], None),
             publisher(h.clone(), log.clone(), "stats", vec![2], None),
         ],
+        // H9: a frozen subscriber of the *other* topic: its publisher and the stats publisher must still finish
+        9 => vec![
+            subscriber(h.clone(), log.clone(), 0, "priority.window", c.cap, 0, false, false, true, parked.clone()),
+            subscriber(h.clone(), log.clone(), 1, "stats", c.cap, 1, false, false, false, parked.clone()),
+            publisher(h.clone(), log.clone(), "priority.window", vec![1, 2, 3], None),
+            publisher(h.clone(), log.clone(), "stats", vec![4, 5], None),
+        ],
         _ => vec![
             subscriber(h.clone(), log.clone(), 0, "stats", c.cap, 0, false, false, true, parked.clone()),
             publisher(h.clone(), log.clone(), "stats", vec![1, 2, 3, 4], None),
@@ -189,6 +196,7 @@ fn publisher_lists(c: Config) -> Vec<(&'static str, Vec<i64>)> {
         5 => vec![("stats", vec![1, 2]), ("stats", vec![3])],
         6 => vec![("stats", vec![1, 2, 3]), ("stats", vec![4, 5])],
         8 => vec![("stats", vec![1]), ("stats", vec![2])],
+        9 => vec![("priority.window", vec![1, 2, 3]), ("stats", vec![4, 5])],
         _ => vec![("stats", vec![1, 2, 3, 4])],
     }
 }
@@ -314,6 +322,7 @@ fn judge(c: Config, log: &[Obs], x: &Execution, hub_len_end: usize) -> Result<St
             5 => vec![vec![1, 2], vec![3]],
             6 => vec![vec![1, 2, 3], vec![4, 5]],
             8 => vec![vec![1], vec![2]],
+            9 => vec![vec![1, 2, 3], vec![4, 5]],
             _ => vec![vec![1, 2, 3, 4]],
         };
         publisher_order.extend(lists);
@@ -396,12 +405,12 @@ fn configs(tier: Tier) -> Vec<(Config, usize)> {
     let mut v = Vec::new();
     let b = if tier.is_quick() { 2 } else { 3 };
     for cap in [1usize, 2] {
-        for h in 1..=8u8 {
+        for h in 1..=9u8 {
             if h == 8 && cap == 1 {
                 continue; // H8 uses capacity >= 2
             }
             let bound = match h {
-                2 | 5 | 6 | 8 => b.min(if tier.is_quick() { 2 } else { 3 }),
+                2 | 5 | 6 | 8 | 9 => b.min(if tier.is_quick() { 2 } else { 3 }),
                 _ => b,
             };
             v.push((Config { h, cap }, bound));
@@ -519,6 +528,7 @@ pub fn run(tier: Tier) -> Report {
         "H6": "two subscribers frozen for ever after subscribing || publishers {1,2,3} || {4,5}: every schedule must run to completion",
         "H7": "frozen subscriber || publisher {1,2,3,4} || subscriber that unsubscribes",
         "H8": "subscriber (recv x2) || subscriber (recv x2, unsubscribe) || publisher {1} || publisher {2}",
+        "H9": "subscriber of priority.window frozen for ever || stats subscriber (recv x1) || publisher priority.window {1,2,3} || publisher stats {4,5}: every schedule must run to completion",
     }));
     rep.set("switch_points", json!("every genuine Pending of tokio's Mutex / mpsc, plus yield points before every lock acquisition, right after every acquisition (lock held), after the id counter fetch_add, between entries of the publish loop (lock held), and after the publish loop released the lock"));
     rep.set("oracle", json!("(1) every schedule runs to completion (no deadlock), also with subscribers that never read / never run again; (2) every received line parses, is jsonrpc 2.0, has method <topic>.update of the subscription's topic and a subscription_id that subscribe returned to that very subscriber; ids pairwise distinct; (3) per subscription each value at most once, one publisher's values in program order, two subscriptions of a topic agree on the relative order of common values; a received value's publish had been invoked; (4) no value whose publish was invoked after unsubscribe(X) returned is delivered on X, and a subscriber that empties its channel right after unsubscribe returned finds it still empty at the end of the execution (nothing is put into it after the unsubscribe completed); (5) hub.len() after a publish (invoked after a receiver was dropped) has returned no longer counts that subscription"));
